@@ -7,15 +7,15 @@ import "strings"
 // JV is a JSON value whose scalars and keys are kept as *source text* (so that
 // escape spellings are part of the model).
 type JV struct {
-	Kind  byte   // 'o' 'a' 'l'(literal)
-	Lit   string // literal source text, e.g. `1`, `"a\n"`, `true`
+	Kind  byte     // 'o' 'a' 'l'(literal)
+	Lit   string   // literal source text, e.g. `1`, `"a\n"`, `true`
 	Keys  []string // key source text with quotes
 	Items []JV
 }
 
-func Lit(s string) JV { return JV{Kind: 'l', Lit: s} }
+func Lit(s string) JV                 { return JV{Kind: 'l', Lit: s} }
 func Obj(keys []string, vals []JV) JV { return JV{Kind: 'o', Keys: keys, Items: vals} }
-func Arr(vals ...JV) JV { return JV{Kind: 'a', Items: vals} }
+func Arr(vals ...JV) JV               { return JV{Kind: 'a', Items: vals} }
 
 // WS describes a whitespace layout for plain JSON.
 type WS struct {
